@@ -43,15 +43,27 @@ def harvest_node_kinds(repo, c: api.Contract):
     generated trees draw their node types from these (plus one filler), which makes small interesting trees likely."""
     kinds = set()
     try:
-        tree = repo.lookup(c.target).module.tree
+        trees = [repo.lookup(c.target).module.tree]
     except Exception:  # noqa
         return []
-    for n in ast.walk(tree):
-        if isinstance(n, ast.Compare) and any(isinstance(x, ast.Attribute) and x.attr == "type" for x in [n.left] + n.comparators):
-            for x in [n.left] + n.comparators:
-                for k in ast.walk(x):
-                    if isinstance(k, ast.Constant) and isinstance(k.value, str):
-                        kinds.add(k.value)
+    try:
+        # the contract file names the kinds the SPEC distinguishes (a mutated function may have lost one of them)
+        import inspect
+        import sys
+        trees.append(ast.parse(inspect.getsource(sys.modules[c.module])))
+    except Exception:  # noqa
+        pass
+    for tree in trees:
+        consts = {t.id: st.value for st in tree.body if isinstance(st, ast.Assign) and isinstance(st.value, ast.Tuple)
+                  for t in st.targets if isinstance(t, ast.Name)}
+        for n in ast.walk(tree):
+            if isinstance(n, ast.Compare) and any(isinstance(x, ast.Attribute) and x.attr == "type" for x in [n.left] + n.comparators):
+                for x in [n.left] + n.comparators:
+                    if isinstance(x, ast.Name) and x.id in consts:
+                        x = consts[x.id]  # module-level tuple of kinds (e.g. DECL_TYPES)
+                    for k in ast.walk(x):
+                        if isinstance(k, ast.Constant) and isinstance(k.value, str):
+                            kinds.add(k.value)
     return sorted(kinds) + ["other"] if kinds else []
 
 
